@@ -1,6 +1,7 @@
 package jph
 
 import (
+	"regexp"
 	"fmt"
 	"strings"
 
@@ -108,6 +109,14 @@ func (c01) Exec(seed int64, i int, tier string) Record {
 		return c01ReentCase(CaseRng(seed, "C01", i))
 	case 10:
 		return c01SecondCallCase(CaseRng(seed, "C01", i))
+	case 1:
+		if (i/16)%2 == 0 {
+			return c01AggOperandCase(CaseRng(seed, "C01", i))
+		}
+	case 9:
+		if (i/16)%2 == 0 {
+			return c01RegexDirectCase(CaseRng(seed, "C01", i))
+		}
 	case 2:
 		// numbers at the edge of float64 / int64 in a UseNumber document (b10_helpers.go): exactly the members the
 		// comparison holds for — a number compares as the float64 nearest to its text, ±Inf beyond the range
@@ -342,6 +351,138 @@ func c01SecondCallCase(r *Rng) Record {
 	if !updated {
 		rec.Tags = append(rec.Tags, "second-call:document-not-updatable")
 	}
+	return rec
+}
+
+// ---------- class agg-operand: a comparison between an aggregate-collapsed path and a per-member path ----------
+//
+// `$.a[?($.lim.max() < @.v)]`, `$.a[?(@.v >= $.lim[*].count())]`, `$.a[?(@.w.max() == $.k)]` …: the aggregate operand is
+// one value compared with EVERY member's value, on whichever side it is written. Expected values: the specification.
+func c01AggOperandCase(r *Rng) Record {
+	num := func() interface{} { return float64(r.Range(0, 4)) }
+	n := r.Range(2, 5)
+	recs := make([]interface{}, n)
+	for i := range recs {
+		m := map[string]interface{}{}
+		if r.Chance(85) {
+			m["v"] = num()
+		}
+		w := make([]interface{}, r.Range(0, 3))
+		for j := range w {
+			w[j] = num()
+		}
+		m["w"] = w
+		recs[i] = m
+	}
+	lim := make([]interface{}, r.Range(1, 4))
+	for j := range lim {
+		lim[j] = num()
+	}
+	var doc interface{} = map[string]interface{}{"a": recs, "lim": lim, "k": num()}
+	child := func(k string) *Step { return &Step{Kind: StChild, Key: k, Bracket: r.Chance(15)} }
+	agg := Fn{Agg: true, Name: []string{"max", "count", "first"}[r.Weighted([]int{50, 25, 25})]}
+	var aggPath, other *Path
+	switch r.Weighted([]int{45, 25, 30}) {
+	case 0:
+		aggPath = &Path{Head: HeadRoot, Steps: []*Step{child("lim")}, Fns: []Fn{agg}}
+		other = &Path{Head: HeadCur, Steps: []*Step{child("v")}}
+	case 1:
+		aggPath = &Path{Head: HeadRoot, Steps: []*Step{child("lim"), {Kind: StWild, Bracket: true}}, Fns: []Fn{agg}}
+		other = &Path{Head: HeadCur, Steps: []*Step{child("v")}}
+	default:
+		aggPath = &Path{Head: HeadCur, Steps: []*Step{child("w")}, Fns: []Fn{agg}}
+		other = &Path{Head: HeadRoot, Steps: []*Step{child("k")}}
+	}
+	q := &Query{Kind: QCmp, Op: r.Weighted([]int{20, 15, 17, 16, 16, 16}), L: &Operand{Path: aggPath}, R: &Operand{Path: other}}
+	side := "aggregate-left"
+	if r.Chance(45) {
+		q.L, q.R = q.R, q.L
+		side = "aggregate-right"
+	}
+	p := &Path{Head: HeadRoot, Steps: []*Step{child("a"), {Kind: StFilter, Q: q}}}
+	if r.Chance(30) {
+		p.Steps = append(p.Steps, child("v"))
+	}
+	text := Render(p, r)
+	jn := r.Chance(30)
+	if jn {
+		doc = ToJnum(doc)
+	}
+	cfg := Config(false, nil)
+	return c01Check(text, p, p.Sexp(), doc, jn, &cfg, []string{"class:agg-operand", "agg-operand:" + side}, map[string]interface{}{}, nil)
+}
+
+// ---------- class regex-direct: `=~` and escaped string literals against an oracle that needs no model ----------
+//
+// `$[?(@.s =~ /PAT/)]` selects exactly the members whose `s` is a string that Go's regexp (the semantics the library
+// documents) matches; `$[?(@.s == 'a\u0041')]` compares with the literal as the grammar reads it (a backslash in a filter
+// string literal only removes itself). The path text is written by hand here, the expectation computed directly.
+var c01RegexPats = []string{`^colou?r`, `^ab|cd`, `^a*b`, `^ab{0,1}c`, `^(ab)?c`, `b+$`, `^a.c$`, `[0-9]+`, `^[^a]`, `(?i)^AB`, `^a|^b`, `a?`, `^x*$`, `^ab?`, `^abc|^abd`, `o{2}`, `^\d+$`, `\.`, `^a\/b`}
+var c01RegexSubjects = []string{"color", "colour", "colr", "cd", "xcd", "ab", "abc", "ac", "aab", "b", "bb", "abd", "a.c", "a/b", "AB", "12", "", "x", "xx", "foo", "a"}
+
+func c01RegexDirectCase(r *Rng) Record {
+	n := r.Range(2, 6)
+	recs := make([]interface{}, n)
+	for i := range recs {
+		m := map[string]interface{}{}
+		switch r.Weighted([]int{80, 10, 10}) {
+		case 0:
+			m["s"] = r.Pick(c01RegexSubjects)
+		case 1:
+			m["s"] = float64(r.Range(0, 3))
+		}
+		recs[i] = m
+	}
+	cfg := Config(false, nil)
+	var text, what string
+	var keep func(v interface{}) bool
+	if r.Chance(65) {
+		pat := r.Pick(c01RegexPats)
+		re := regexp.MustCompile(pat)
+		text = "$[?(@.s =~ /" + pat + "/)]"
+		what = "regex:" + pat
+		keep = func(v interface{}) bool { s, ok := v.(string); return ok && re.MatchString(s) }
+	} else {
+		// an escaped literal: members equal to the literal WITHOUT the backslash, and decoys equal to what other
+		// readings of the escape would give
+		raws := []struct{ raw, val, decoy string }{{`a\u0041`, "au0041", "aA"}, {`\t`, "t", "\t"}, {`x\ny`, "xny", "x\ny"}, {`\u00e9`, "u00e9", "é"}, {`a\\b`, `a\b`, `a\\b`}, {`q\'`, "q'", `q\'`}}
+		c := raws[r.Intn(len(raws))]
+		for i := range recs {
+			if r.Chance(60) {
+				recs[i] = map[string]interface{}{"s": pick(r.Chance(50), c.val, c.decoy)}
+			}
+		}
+		op := pick(r.Chance(70), "==", "!=").(string)
+		text = "$[?(@.s " + op + " '" + c.raw + "')]"
+		what = "literal-escape:" + c.raw
+		keep = func(v interface{}) bool { s, ok := v.(string); return (ok && s == c.val) == (op == "==") }
+		if op == "!=" {
+			keep = func(v interface{}) bool { s, ok := v.(string); return !(ok && s == c.val) }
+		}
+	}
+	doc := interface{}(recs)
+	rec := Record{Text: text, Doc: JSONText(doc), Tags: []string{"class:regex-direct", "regex-direct:" + what}}
+	out := Run(text, doc, &cfg)
+	var want []interface{}
+	for _, m := range recs {
+		v, has := m.(map[string]interface{})["s"]
+		if strings.Contains(what, "literal-escape") && strings.Contains(text, "!=") {
+			if !has || keep(v) {
+				want = append(want, m)
+			}
+			continue
+		}
+		if has && keep(v) {
+			want = append(want, m)
+		}
+	}
+	switch {
+	case len(want) == 0 && out.OK:
+		rec.Viol, rec.Class = fmt.Sprintf("%s selects %s, the oracle selects nothing", text, ValsSexp(out.Vals)), "regex-direct"
+	case len(want) > 0 && (!out.OK || ValsSexp(out.Vals) != ValsSexp(want)):
+		rec.Viol, rec.Class = fmt.Sprintf("%s gives %s, the oracle selects %s", text, c08Show(out), ValsSexp(want)), "regex-direct"
+	}
+	rec.Key = "regex-direct/" + what + "/" + fmt.Sprint(len(want))
 	return rec
 }
 
